@@ -355,3 +355,41 @@ Proof.
   split; [exists witness_len25; exact pre_fix_copy_panics|].
   pose proof post_fix_witnesses_rejected as [A [_ [_ B]]]. split; assumption.
 Qed.
+
+(** ** Source and destination may be one file *)
+Lemma fget_fset_same : forall st i c, fget (fset st i c) i = c.
+Proof. intros. unfold fset. cbn [fget]. rewrite N.eqb_refl. reflexivity. Qed.
+
+Lemma in_place_roundtrip_proof : forall st i j cfg st1,
+  fsize (fget st i) + fsize cfg + 16 <= max_alloc ->
+  append_config_at st i j cfg = (st1, Ok tt) ->
+  (cfg <> [] -> snd (read_embedded (fget st1 j)) = Ok cfg) /\
+  snd (orig_size (fget st1 j)) = Ok (fsize (fget st i)) /\
+  forall k, exists st2, strip_at st1 j k = (st2, Ok tt) /\ fget st2 k = fget st i.
+Proof.
+  intros st i j cfg st1 Hmax H. unfold append_config_at in H.
+  destruct (append_config (fget st i) cfg) as [f|e] eqn:A; [|discriminate].
+  injection H as <-. rewrite fget_fset_same.
+  pose proof (fsize_nonneg (fget st i)) as Hb. pose proof (fsize_nonneg cfg) as Hc.
+  split; [|split].
+  - intros Hne. eapply embed_read_roundtrip_proof; [exact Hne| |exact A]. lia.
+  - eapply strip_roundtrip_full_proof; eassumption.
+  - intros k. unfold strip_at. rewrite fget_fset_same.
+    destruct (strip_roundtrip_full_proof _ _ _ Hmax A) as [S _]. rewrite S.
+    eexists. split; [reflexivity|]. apply fget_fset_same.
+Qed.
+
+(** an implementation that truncates the destination before it has read the
+    source loses the binary when both are one file: stripping gives nothing *)
+Lemma streaming_in_place_loses_binary :
+  let st := [(1%N, [x7f; x45; x4c; x46])] in
+  let cfg := [x61; x3a; x31] in
+  exists st1, append_config_streaming_at st 1%N 1%N cfg = (st1, Ok tt) /\
+    snd (read_embedded (fget st1 1%N)) = Ok cfg /\
+    snd (copy_without_config (fget st1 1%N)) = Ok [] /\
+    (* with distinct files the same procedure is fine *)
+    snd (copy_without_config (fget (fst (append_config_streaming_at st 1%N 2%N cfg)) 2%N)) = Ok [x7f; x45; x4c; x46].
+Proof.
+  intros st cfg. exists (fst (append_config_streaming_at st 1%N 1%N cfg)).
+  vm_compute. repeat split; reflexivity.
+Qed.
